@@ -9,6 +9,8 @@ mod ctx;
 mod engine_t;
 mod framework;
 mod harness;
+mod lin;
+mod scn_cont;
 mod payload;
 mod rng;
 mod scn_uni;
@@ -29,6 +31,15 @@ struct PropertyCheck {
 fn registry(property: &str) -> Option<PropertyCheck> {
     Some(match property {
         "C01" => PropertyCheck { parts: vec![Box::new(Part(Arc::new(scn_uni::C01)))], rule: RULE_T, quick_s: 25, thorough_s: 900, assumptions: vec![] },
+        "C02" => PropertyCheck {
+            parts: vec![Box::new(Part(Arc::new(scn_uni::C02Uni))), Box::new(Part(Arc::new(scn_cont::RingLin { property: "C02", kinds: &scn_cont::RINGS })))],
+            rule: RULE_T,
+            quick_s: 30,
+            thorough_s: 900,
+            assumptions: vec![],
+        },
+        "C13" => PropertyCheck { parts: vec![Box::new(Part(Arc::new(scn_cont::AllocConc)))], rule: RULE_T, quick_s: 25, thorough_s: 900, assumptions: vec![] },
+        "C18" => PropertyCheck { parts: vec![Box::new(Part(Arc::new(scn_cont::RingLin { property: "C18", kinds: &scn_cont::STANDALONE })))], rule: RULE_T, quick_s: 25, thorough_s: 900, assumptions: vec![] },
         "C04" => PropertyCheck { parts: vec![Box::new(Part(Arc::new(scn_uni::C04Uni)))], rule: RULE_T, quick_s: 25, thorough_s: 900, assumptions: vec![] },
         _ => return None,
     })
@@ -36,7 +47,7 @@ fn registry(property: &str) -> Option<PropertyCheck> {
 
 fn all_parts() -> Vec<Box<dyn PartRunner>> {
     let mut v: Vec<Box<dyn PartRunner>> = vec![];
-    for p in ["C01", "C04"] {
+    for p in ["C01", "C02", "C04", "C13", "C18"] {
         if let Some(pc) = registry(p) {
             v.extend(pc.parts);
         }
@@ -84,7 +95,7 @@ fn main() {
                 }
             };
             let parts = all_parts();
-            let Some(part) = parts.iter().find(|p| p.name() == file.scenario) else {
+            let Some(part) = parts.iter().find(|p| p.name() == file.scenario && p.property() == file.property).or_else(|| parts.iter().find(|p| p.name() == file.scenario)) else {
                 eprintln!("harness error: unknown scenario {}", file.scenario);
                 std::process::exit(2);
             };
